@@ -42,5 +42,5 @@ ListsT == { <<1>>, <<1, 2>>, <<7>> }
 PkgsQ == { <<1, 2>>, <<1, 3>>, <<1, 4>>, <<6, 13>> }
 PkgsT == { <<1, 2>>, <<1, 3>>, <<1, 4>>, <<7, 8>>, <<7, 9>>, <<5, 2>>, <<1, 2, 10>>, <<6>>, <<1>>, <<6, 13>> }
 ExtQ == [ExtStd EXCEPT !.pkgs = PkgsQ, !.maxpkg = 1]
-ExtT == [ExtStd EXCEPT !.pkgs = PkgsT, !.maxpkg = 2]
+ExtT == [ExtStd EXCEPT !.pkgs = PkgsT, !.maxpkg = 1]
 ====
